@@ -84,6 +84,8 @@ def main(argv=None):
         print(f"no contracts for {prop}")
         return 3
     timeout_ms = 20000 if args.tier == "quick" else 60000
+    from pyvc import induct
+    induct.SECOND_BACKEND = args.tier == "thorough"
     tasks = []
     for n in names:
         c = vc.REGISTRY[n]
@@ -278,7 +280,9 @@ def main(argv=None):
                            "wall_s": r["wall_s"], "bounded": vc.REGISTRY[r["contract"]].bounded} for r in results],
             "obligations_by_kind": by_kind,
             "external_lemmas": external,
-            "backend": {"z3": __import__("z3").get_version_string(), "solver_seconds": solver_s},
+            "backend": {"z3": __import__("z3").get_version_string(), "solver_seconds": solver_s,
+                        "cvc5_on_lemma_obligations": {k: sum(1 for r in results for o in r["obligations"] if o.get("second_backend") == "cvc5: " + k)
+                                                      for k in ("unsat", "unknown", "absent")}},
             "stubs_used": stubs,
             "standin_contracts": sorted({r["contract"] for r in results if vc.REGISTRY[r["contract"]].standin}),
             "known_findings_printed": sorted(known_hits),
